@@ -12,15 +12,15 @@ import (
 // generator drops the (style, integer) pairs whose reference evaluation goes through one of them.
 // The oracle itself (check) knows nothing of this list.
 var knownDefectTrace = map[string]string{
-	"cyclic<=0":                    "F1 cyclic-nonpositive-panic",
-	"additive-zero-weight-reached": "F2 additive-zero-weight-panic",
-	"negative-2sym":                "F3 negative-descriptor-reversed",
-	"pad-nonascii":                 "F5 pad-counts-bytes",
-	"neg-algorithm-failed":         "F9 fallback-gets-absolute-value",
-	"range-inf-lower":              "F8 range-infinite-lower-bound-rejected",
-	"extends-undefined":            "F4 extends-undefined-drops-descriptors",
-	"extends-into-cycle":           "F10 extends-into-cycle-drops-descriptors",
-	"fallback-to-extends-ancestor": "F12 fallback-to-extended-style-taken-for-loop",
+	"cyclic<=0":                     "F1 cyclic-nonpositive-panic",
+	"additive-zero-weight-reached":  "F2 additive-zero-weight-panic",
+	"negative-2sym":                 "F3 negative-descriptor-reversed",
+	"pad-nonascii":                  "F5 pad-counts-bytes",
+	"neg-algorithm-failed":          "F9 fallback-gets-absolute-value",
+	"range-inf-lower":               "F8 range-infinite-lower-bound-rejected",
+	"extends-undefined":             "F4 extends-undefined-drops-descriptors",
+	"extends-into-cycle":            "F10 extends-into-cycle-drops-descriptors",
+	"fallback-extends-interference": "F12 fallback-and-extends-share-one-visited-set",
 }
 
 // knownDefectStatic: the same for features of how a style is written.
